@@ -79,29 +79,29 @@ def run(ctx):
     with ctx.rule('C20-R2', 'insert'):
         b = F.body(DNM + '::<K, V>::insert')
         ctx.touched(b)
-        gt = eq = None
-        for sw in b.switches:
-            if sw.on.kind == 'bin':
-                ops = [noref(o) for o in sw.on.key[1:]]
-                lens = [k for k, o in enumerate(ops) if o.kind == 'call' and b.call_at(o.key).is_('Vec::len')]
-                idxs = [k for k, o in enumerate(ops) if o.kind == 'call' and 'From' in b.call_at(o.key).callee]
-                if lens and idxs:
-                    if (sw.on.key[0] == 'Gt' and idxs[0] == 0) or (sw.on.key[0] == 'Lt' and idxs[0] == 1):
-                        gt = sw
-                    if sw.on.key[0] == 'Eq':
-                        eq = sw
-        ok = gt is not None
+        from common import edges_where
+
+        def is_len(v):
+            v = noref(v)
+            return v.kind == 'call' and b.call_at(v.key) is not None and b.call_at(v.key).is_('Vec::len')
+
+        def is_idx(v):
+            v = noref(v)
+            return v.kind == 'call' and b.call_at(v.key) is not None and 'From' in b.call_at(v.key).callee
+        gt = edges_where(b, is_idx, is_len, 'gt')
+        eq = edges_where(b, is_idx, is_len, 'eq')
+        below = edges_where(b, is_idx, is_len, 'lt') + edges_where(b, is_idx, is_len, 'ne')
+        ok = bool(gt)
         if ok:
-            r = b.reach([e[1] for e in gt.edges_for(True)])
+            r = b.reach([e[1] for e in gt])
             ok = not any(x in r for x in b.returns)
         ctx.check(ok, 'C20-R2', 'insert-beyond-len-panics', b,
                   good='insert with index > len panics',
                   bad='DenseNatMap::insert does not reject an index beyond len: the map would get a gap')
         pushes = b.calls_to('Vec::push')
         swaps = b.calls_to('mem::swap', 'mem::replace')
-        ok = eq is not None and len(pushes) == 1 and len(swaps) == 1 and \
-            b.edges_dominate(eq.edges_for(True), pushes[0].bb, frm=[eq.bb]) and \
-            b.edges_dominate(eq.edges_for(False), swaps[0].bb, frm=[eq.bb])
+        ok = bool(eq) and bool(below) and len(pushes) == 1 and len(swaps) == 1 and \
+            b.edges_dominate(eq, pushes[0].bb) and b.edges_dominate(below, swaps[0].bb)
         ctx.check(ok, 'C20-R2', 'insert-appends-or-swaps', b,
                   good='index == len appends, index < len swaps the value in place',
                   bad='DenseNatMap::insert does not append exactly at len and swap below it')
